@@ -7,8 +7,8 @@ per-annotation boundary value sets, is pushed through the REAL code at four seam
 
   A  ``x.serialize_to_bytes()`` -> ``cls.deserialize_from_bytes()``                     must equal ``x``
   B  ``serialize_compact(x)`` (declines without msgpack) -> ``deserialize_compact``     must equal the Arrow result of A
-  C  ``_serialize_state_bytes`` -> ``_resolve_state_cls`` -> ``_deserialize_state_bytes`` (single + union info)
-                                                                                       must equal the codec it dispatched to
+  C  ``_serialize_state_bytes`` -> ``_resolve_state_cls`` -> ``_deserialize_state_bytes`` (single + union info), on a
+     ProducerState twin of the class (field depth <=1 quick / <=2 thorough)            must equal the codec it dispatched to
   D  a real HTTP producer stream (``make_sync_client``) whose state carries the field: the state seen by
      ``produce()`` after every continuation must equal what the dispatched codec yields directly
 
@@ -698,7 +698,7 @@ class Pass:
         if scls is not None:
             outcome = self.state_seam(case, label, scls, kw, arrow_bad, well_typed) or outcome
         ctx.case(
-            sample={"pass": self.name, "class": label, "forms": [f for _, _, f in fields], "instance": repr(x)[:160], "codec": codec, "outcome": outcome},
+            sample=None if ctx.evaluations % 211 else {"pass": self.name, "class": label, "forms": [f for _, _, f in fields], "instance": repr(x)[:160], "codec": codec, "outcome": outcome},
             nontrivial=(self.name, item[0], tuple(head(s) for _, s, _ in fields), max(depth(s) for _, s, _ in fields), codec),
             outcome=(self.name, outcome, codec),
         )
@@ -752,8 +752,8 @@ class Pass:
                 fields.append(("t", "str" if head(s) != "str" else "int", "trans"))
             try:
                 cls = w.mk(fields)
-                # the state twin: all quick shapes of depth<=1 and every flat/core shape; all shapes in thorough
-                scls = w.mk(fields, state=True) if (w.thorough or depth(s) <= 1) else None
+                # the state twin (seam C): shapes of depth<=1 (quick) / <=2 (thorough); pairs and the flat domain always
+                scls = w.mk(fields, state=True) if depth(s) <= (2 if w.thorough else 1) else None
                 self.bump("classes_generated", 1 + (scls is not None))
                 vals = list(w.vals(s))
             except Exception as e:
@@ -870,7 +870,7 @@ class Pass:
                             outcome = "http-diff"
                             break
                 ctx.case(
-                    sample={"pass": self.name, "http_state_field": show(s), "value": repr(v)[:120], "codec": codec, "turns": turns},
+                    sample=None if ctx.evaluations % 5 else {"pass": self.name, "http_state_field": show(s), "value": repr(v)[:120], "codec": codec, "turns": turns},
                     nontrivial=(self.name, "http", head(s), depth(s), codec),
                     outcome=(self.name, outcome, codec, "http"),
                 )
@@ -881,7 +881,7 @@ def run_pass(ctx: Any, name: str, only_item: Any = None, only_instance: int | No
     if name == "msgpack" and not w.have_msgpack:
         raise RuntimeError("msgpack pass requested but vgi_rpc.utils._HAVE_MSGPACK is False")
     p = Pass(ctx, w, name)
-    ctx.extra[f"{name}:have_msgpack"] = int(w.have_msgpack)
+    ctx.extra[f"max_{name}_have_msgpack"] = int(w.have_msgpack)
     if only_item is not None:
         p.run_item(only_item, only_instance)
         return
@@ -913,7 +913,7 @@ def child(ctx: Any, extra_args: list[str]) -> dict[str, Any] | None:
 
 def run(ctx: Any) -> None:
     run_pass(ctx, "asinstalled")
-    if ctx.extra.get("asinstalled:have_msgpack"):
+    if ctx.extra.get("max_asinstalled_have_msgpack"):
         ctx.note("msgpack is importable in this environment: the as-installed pass already ran the compact codec; stub pass skipped")
         return
     d = child(ctx, [])
@@ -963,7 +963,7 @@ def _child_main() -> int:
         run_pass(ctx, "msgpack", r["item"], r["instance"])
     else:
         run_pass(ctx, "msgpack")
-    ctx.extra["msgpack:stub"] = int(bool(getattr(msgpack, "IS_VERIF_STUB", False)))
+    ctx.extra["max_msgpack_is_stub"] = int(bool(getattr(msgpack, "IS_VERIF_STUB", False)))
     with open(a.out, "w") as f:
         json.dump(ctx.dump(), f, default=repr)
     return 0
